@@ -11,6 +11,14 @@ import re
 from . import common, elfread, qbeil
 
 
+def _enc(s):
+    """declaration texts that carry raw source bytes were decoded as latin-1: write them back byte for byte"""
+    try:
+        return s.encode('latin-1')
+    except UnicodeEncodeError:
+        return s.encode('utf-8')
+
+
 class Decl:
     __slots__ = ('id', 'text', 'ref', 'names', 'meta')
 
@@ -25,7 +33,7 @@ class Decl:
 def _compile_ref(compiler, target, src, wd, tag, extra=()):
     c = os.path.join(wd, '%s.c' % tag)
     o = os.path.join(wd, '%s.o' % tag)
-    common.write(c, src)
+    common.write(c, _enc(src))
     quiet = [] if any(e.startswith('-Werror') for e in extra) else ['-w']   # -w would also silence -Werror=...
     if compiler == 'clang':
         cmd = ['clang', '--target=' + common.CLANG_TRIPLE[target], '-std=gnu11', '-c', '-fno-common', '-ffreestanding',
@@ -75,7 +83,7 @@ def cproc_images(exe, target, prefix, decls, wd, tag):
     c = os.path.join(wd, '%s.cproc.c' % tag)
     for _ in range(400):
         src = prefix + ('' if prefix.endswith('\n') or not prefix else '\n') + '\n'.join(d.text for d in live) + '\n'
-        common.write(c, src)
+        common.write(c, _enc(src))
         r = common.cproc(exe, c, target, timeout=60, cpu=30)
         if r.status == 0 and r.signal is None and not r.timeout:
             try:
@@ -108,7 +116,7 @@ def _bisect_fatal(exe, target, prefix, live, c):
     lo, hi = 0, len(live)   # smallest n such that first n decls fail
     def fails(n):
         src = prefix + ('' if prefix.endswith('\n') or not prefix else '\n') + '\n'.join(d.text for d in live[:n]) + '\n'
-        common.write(c, src)
+        common.write(c, _enc(src))
         r = common.cproc(exe, c, target, timeout=60, cpu=30)
         return r.status != 0 or r.signal is not None
     if not fails(hi):
